@@ -894,6 +894,8 @@ func normalizeKey(key string, cfg runCfg) string {
 	switch {
 	case cls == "file-already-closed" && cfg.Iters && (op == "reader" || op == "get" || op == "read" || op == "iter-foreach"):
 		return "object-reader-file-already-closed:with-concurrent-object-iterator"
+	case cls == "file-already-closed" && cfg.Iters && op == "size":
+		return "object-size-file-already-closed:with-concurrent-object-iterator"
 	case strings.HasPrefix(cfg.Writer, "repacker") && (op == "iter" || op == "iter-foreach") && absentish[cls]:
 		return "stale-pack-list:object-unreadable-after-repack-by-other-instance:" + cfg.Writer
 	case strings.HasPrefix(cfg.Writer, "repacker") && objOps[op] && len(parts) >= 3 && parts[1] == "ground-truth" && absentish[cls]:
